@@ -417,7 +417,7 @@ func inject(t *rapid.T, s *codecx.Schema, st site) string {
 			*st.slot = jx.S(pick("up", "abc", "1x", "", "0x10", "1 "))
 			return "unparsable-number:int32"
 		case "range":
-			lit := pick("rg", "2147483648", "-2147483649", "9223372036854775808", "99999999999999999999")
+			lit := pick("rg", "2147483648", "-2147483649", "9223372036854775808", "99999999999999999999", "3e9", "2147483648.0", "2e19", "18446744073709551621.0")
 			if rapid.Bool().Draw(t, "quoted") {
 				*st.slot = jx.S(lit)
 			} else {
@@ -437,7 +437,7 @@ func inject(t *rapid.T, s *codecx.Schema, st site) string {
 			*st.slot = jx.S(pick("up", "abc", "1x", ""))
 			return "unparsable-number:uint32"
 		default:
-			lit := pick("rg", "4294967296", "-1", "18446744073709551616")
+			lit := pick("rg", "4294967296", "-1", "18446744073709551616", "5e9", "4294967296.0", "2e19")
 			if rapid.Bool().Draw(t, "quoted") {
 				*st.slot = jx.S(lit)
 			} else {
@@ -454,7 +454,7 @@ func inject(t *rapid.T, s *codecx.Schema, st site) string {
 			*st.slot = jx.S(pick("up", "abc", "12a", "", "1.5"))
 			return "unparsable-number:int64"
 		default:
-			lit := pick("rg", "9223372036854775808", "-9223372036854775809", "99999999999999999999")
+			lit := pick("rg", "9223372036854775808", "-9223372036854775809", "99999999999999999999", "1e19", "9223372036854775808.0", "2e19", "18446744073709551621.0")
 			if rapid.Bool().Draw(t, "quoted") {
 				*st.slot = jx.S(lit)
 			} else {
@@ -471,7 +471,7 @@ func inject(t *rapid.T, s *codecx.Schema, st site) string {
 			*st.slot = jx.S(pick("up", "abc", "12a", ""))
 			return "unparsable-number:uint64"
 		default:
-			lit := pick("rg", "18446744073709551616", "-1", "99999999999999999999")
+			lit := pick("rg", "18446744073709551616", "-1", "99999999999999999999", "2e19", "18446744073709551616.0", "1e30")
 			if rapid.Bool().Draw(t, "quoted") {
 				*st.slot = jx.S(lit)
 			} else {
